@@ -76,6 +76,8 @@ pub enum BAct {
     NoQual(String),
     NoQuals,
     TypedRepo(Option<String>),
+    /// a user-defined typed qualifier with a mixed-case KEY
+    TypedCustom(Option<String>),
     TypedChecksum(Option<String>),
     PartsName(String),
     PartsQual(String, String),
@@ -274,6 +276,9 @@ impl<T: BFlavor> BModel<T> {
         for v in [Some("a"), Some(""), Some("x?y&z"), None] {
             acts.push(BAct::TypedRepo(v.map(str::to_owned)));
         }
+        acts.push(BAct::TypedCustom(Some("x".to_owned())));
+        acts.push(BAct::TypedCustom(None));
+        acts.push(BAct::NoQual("BUILD_TAG".to_owned()));
         for v in [Some("a:00"), Some("B:ff,a:0A"), Some("a:0"), Some("zz"), Some("<default>"), Some("<inserted-empty-bytes>"), None] {
             acts.push(BAct::TypedChecksum(v.map(str::to_owned)));
         }
@@ -457,6 +462,17 @@ impl<T: BFlavor> Model for BModel<T> {
                 None => {
                     r.quals.remove("repository_url");
                     b.with_typed_qualifier(None::<RepositoryUrl>)
+                },
+            },
+            BAct::TypedCustom(v) => match v {
+                Some(v) => {
+                    let v: &'static str = crate::builders::intern(v);
+                    r.quals.insert("build_tag".into(), v.to_owned());
+                    b.with_typed_qualifier(Some(BuildTag(v)))
+                },
+                None => {
+                    r.quals.remove("build_tag");
+                    b.with_typed_qualifier(None::<BuildTag>)
                 },
             },
             BAct::TypedChecksum(v) => match v {
